@@ -1102,6 +1102,10 @@ impl TwoFloat {
             Self::from(0.0)
         } else if self <= -1.0 {
             Self::NAN
+        } else if self <= -0.5 {
+            // 1 + self is exact here, while the f64 estimate below ignores
+            // the low word, which dominates 1 + self close to -1
+            (1.0 + self).ln()
         } else {
             let mut x = Self::from(libm::log1p(self.hi));
             let mut e = x.exp_m1();
